@@ -663,13 +663,15 @@ func syncVictim(res *core.Result, r *rand.Rand, nFrames int) {
 		// the handler runs on another goroutine so that one that never returns is seen as such: no legitimate path
 		// blocks longer than the one-second hand-over to the local interface; 30 s without a process stall is a stall
 		doneCh := core.OnHelper(func() { resu = ms.DeliverOn(p, 0, via) })
-		for waited := false; ; {
+		for {
 			t0 := time.Now()
 			select {
 			case <-doneCh:
 			case <-time.After(30 * time.Second):
-				if core.StalledSince(t0) && !waited {
-					waited = true
+				if core.StalledSince(t0) {
+					// the process (or the whole VM) stood still during these 30 s: they do not count, wait for a
+					// window without a stall (the supervisor's own watchdog bounds this)
+					res.Count("stall_watchdog_windows_discarded_after_process_stall", 1)
 					continue
 				}
 				res.Violate("worker-stalled:sync:"+strings.SplitN(h.kind, "+", 2)[0], fmt.Sprintf("the victim's handler did not return within 30 s from a frame of an authenticated peer (%s, message type %d, ping type %q); the frames before it: %s", h.kind, h.mtype, h.ptype, strings.Join(recent, ", ")),
